@@ -27,6 +27,8 @@ import numpy as np
 import core
 import comp_common as cc
 import comp_matrix as mx
+import c11_fx
+import extract_fx
 
 NONSEP = {"HUE", "SATURATION", "COLOR", "LUMINOSITY", "DARKER_COLOR", "LIGHTER_COLOR"}
 FIXTURE_AREA = 1100 * 1100
@@ -393,9 +395,10 @@ def fixtures(ctx, st):
                 da, dc = cc.max_diffs(real, (sc, ss, sa), uns)
                 st["spec_da"], st["spec_dc"] = max(st["spec_da"], da), max(st["spec_dc"], dc)
     for reason, n in sorted(skipped.items()):
-        ctx.skipped.append(f"{n} fixture(s) not used: {reason}")
+        ctx.skipped.append(f"{n} fixture(s) not compared with the plain model (comp.pixel / comp.spec / float64 oracle; they are compared "
+                           f"with the effect-carrying model comp.fx, see fx_fixture_runs_compared): {reason}")
     for rel, reason in sorted(named.items()):
-        ctx.skipped.append(f"fixture {rel}: {reason}")
+        ctx.skipped.append(f"fixture {rel} (plain model): {reason}")
     ctx.extra["fixtures_used"] = used
 
 
@@ -403,7 +406,8 @@ def fixtures(ctx, st):
 # the check
 # ------------------------------------------------------------------------------------------
 def run(ctx: core.Run):
-    ctx.prove(["PsdVerif.Props.C11"])
+    ctx.regenerate(extract_fx.gen_composite_fx)
+    ctx.prove(["PsdVerif.Props.C11", "PsdVerif.Props.C11Fx"])
     st = {"unstable_px": 0, "px": 0, "spec_da": 0.0, "spec_dc": 0.0, "corr_da": 0.0, "corr_dc": 0.0}
     corpus = json.loads((core.VERIF / "harness" / "corpus" / "C11.json").read_text())
     process(ctx, [case_from_json(j) for j in corpus], st, "corpus")
@@ -419,6 +423,7 @@ def run(ctx: core.Run):
     fixtures(ctx, st)
     model_self_check(ctx, cases[:6])
     knockout_witness(ctx)
+    c11_fx.run(ctx, st)
 
     ncell, zero = mx.coverage(ctx.histograms.get("matrix", {}))
     _, zero_random = mx.coverage(st.get("random_cells", set()))
@@ -479,12 +484,18 @@ def run(ctx: core.Run):
         "modelled": ["composite() for a document", "Compositor.__init__/apply/_apply_source/finish/color/shape/alpha", "_get_group",
                      "_get_object (pixel source)", "_apply_clip_layers", "_get_mask (raster mask, density, disabled)", "_get_const",
                      "paste", "_intersect", "_union/_clip/_divide", "layer_filter", "knockout", "backdrop colour/alpha arrays"],
-        "opaque": ["float32 rounding", "effects / strokes / vector masks / fills / adjustment layers / force=True (outside the property's quantifier)",
+        "modelled_by_the_effect_carrying_model": [
+            "_get_object: fill or pixels ((force or not has_pixels) and has_fill), clip run, vector stroke sub-compositor and its finish() colour",
+            "_get_mask: vector mask where it applies", "_apply_color_overlay / _apply_pattern_overlay / _apply_gradient_overlay / "
+            "_apply_stroke_effect as extra _apply_source steps with the layer's shape / alpha after masks and layer opacity",
+            "adjustment layers (skipped by apply)", "force=True", "has_fill", "_get_stroke (pastes, opacity)"],
+        "opaque": ["float32 rounding", "what is drawn: create_fill / draw_vector_mask / draw_stroke / draw_*_fill / draw_stroke_effect (aggdraw, scipy, "
+                   "skimage) - parameters of the effect-carrying model, obtained by calling the real functions",
                    "composite() of a document without layers (merged image path; C17)", "composite_pil / PIL conversion (C17)"],
     }
-    ctx.notes += NOTES
+    ctx.notes += NOTES + c11_fx.NOTES
     if ctx.tier == "thorough":
-        ctx.recheck(["PsdVerif.Props.C11"])
+        ctx.recheck(["PsdVerif.Props.C11", "PsdVerif.Props.C11Fx"])
 
 
 KNOCKOUT_SIG = "C11/knockout/group-alpha/white-over-white"
@@ -585,6 +596,16 @@ NOTES = [
 def replay(ctx, data):
     inp = data.get("input") or {}
     print("replaying", data.get("signature"))
+    if inp.get("fx"):
+        case = c11_fx.case_from_json(inp)
+        r = c11_fx.eval_case(dict(case, want_model=False))
+        if r["error"]:
+            print("the compositor raises:", r["error"])
+        else:
+            print("real alpha:\n", np.round(np.asarray(r["real"][2])[..., 0], 4))
+            print("first difference from the float64 oracle:", r["spec"][0] if r["spec"] else "(no oracle for this document)")
+        print("expected:", data.get("expected"))
+        return 0
     if "fixture" in inp:
         from psd_tools import PSDImage
         psd = PSDImage.open(core.REPO / "tests" / "psd_files" / inp["fixture"])
